@@ -334,6 +334,92 @@ def _keywords_refused(tree: ast.Module) -> None:
                           "whose keyword arguments are dropped)")
 
 
+def _method_calls(fn: ast.FunctionDef, recv: str, attr: str) -> list[ast.Call]:
+    return [n for n in ast.walk(fn) if isinstance(n, ast.Call) and isinstance(n.func, ast.Attribute)
+            and n.func.attr == attr and isinstance(n.func.value, ast.Name) and n.func.value.id == recv]
+
+
+def _species_attrs(tree: ast.Module) -> dict:
+    """How `_create_sbml_variables` writes a species (amount or concentration, hasOnlySubstanceUnits, which
+    compartment) and how `_default_compartments` / `write` choose the compartments.  Every statement of the two
+    functions that is not recognised is refused."""
+    fn = _fn(tree, "_create_sbml_variables")
+    out: dict = {}
+    h = _method_calls(fn, "cpd", "setHasOnlySubstanceUnits")
+    if not (len(h) == 1 and len(h[0].args) == 1 and isinstance(h[0].args[0], ast.Constant)
+            and isinstance(h[0].args[0].value, bool)):
+        raise Unsupported("_create_sbml_variables: cpd.setHasOnlySubstanceUnits(<bool literal>) exactly once")
+    out["hosu"] = h[0].args[0].value
+    for attr, val in (("setConstant", False), ("setBoundaryCondition", False)):
+        c = _method_calls(fn, "cpd", attr)
+        if not (len(c) == 1 and len(c[0].args) == 1 and isinstance(c[0].args[0], ast.Constant) and c[0].args[0].value is val):
+            raise Unsupported(f"_create_sbml_variables: cpd.{attr}({val}) exactly once")
+    am, co = _method_calls(fn, "cpd", "setInitialAmount"), _method_calls(fn, "cpd", "setInitialConcentration")
+    if len(am) + len(co) != 1 or ast.unparse((am + co)[0].args[0]) != "float(init)":
+        raise Unsupported("_create_sbml_variables: exactly one of cpd.setInitialAmount / setInitialConcentration(float(init))")
+    out["amount"] = bool(am)
+    comp = _method_calls(fn, "cpd", "setCompartment")
+    if not (len(comp) == 1 and len(comp[0].args) == 1):
+        raise Unsupported("_create_sbml_variables: cpd.setCompartment(...) exactly once")
+    a = comp[0].args[0]
+    body = [st for st in fn.body if not (isinstance(st, ast.Expr) and isinstance(st.value, ast.Constant))]
+    if isinstance(a, ast.Constant) and isinstance(a.value, str):
+        out["lit"] = a.value
+        if not (len(body) == 1 and isinstance(body[0], ast.For)):
+            raise Unsupported("_create_sbml_variables: statements before the loop over the variables")
+    elif isinstance(a, ast.Name):
+        out["lit"] = None
+        head = "\n".join(ast.unparse(st) for st in body[:-1])
+        want = ("variables = model.get_raw_variables()\n"
+                "if len(variables) == 0:\n    return\n"
+                "if len(compartments) == 0:\n    msg = 'SBML species need a compartment, but `compartments` is empty'\n"
+                "    raise ValueError(msg)\n"
+                f"{a.id} = next(iter(compartments))")
+        if head != want or not isinstance(body[-1], ast.For) or ast.unparse(body[-1].iter) != "variables.items()":
+            raise Unsupported(f"_create_sbml_variables: choice of the compartment not recognised:\n{head}")
+    else:
+        raise Unsupported("_create_sbml_variables: argument of cpd.setCompartment")
+    # _default_compartments
+    dc = _fn(tree, "_default_compartments")
+    body = [st for st in dc.body if not (isinstance(st, ast.Expr) and isinstance(st.value, ast.Constant))]
+    if not (body and isinstance(body[0], ast.If) and ast.unparse(body[0].test) == "compartments is None"
+            and len(body[0].body) == 1 and isinstance(body[0].body[0], ast.Return)
+            and isinstance(body[0].body[0].value, ast.Dict) and len(body[0].body[0].value.keys) == 1
+            and isinstance(body[-1], ast.Return) and ast.unparse(body[-1].value) == "compartments"):
+        raise Unsupported("_default_compartments: shape")
+    key, val = body[0].body[0].value.keys[0], body[0].body[0].value.values[0]
+    size = [k.value for k in val.keywords if k.arg == "size"] if isinstance(val, ast.Call) else []
+    if not (len(size) == 1 and isinstance(size[0], ast.Constant) and isinstance(size[0].value, int)):
+        raise Unsupported("_default_compartments: size of the default compartment")
+    out["size"] = size[0].value
+    if isinstance(key, ast.Constant) and isinstance(key.value, str):
+        out["default_id"], out["default_fresh"] = key.value, False
+    elif (isinstance(key, ast.Call) and ast.unparse(key.func) == "_free_reference" and len(key.args) == 2
+          and isinstance(key.args[0], ast.Constant) and ast.unparse(key.args[1]) == "taken"):
+        out["default_id"], out["default_fresh"] = key.args[0].value, True
+    else:
+        raise Unsupported("_default_compartments: id of the default compartment")
+    mid = body[1:-1]
+    if not mid:
+        out["clash_refused"] = False
+    elif (len(mid) == 1 and isinstance(mid[0], ast.If)
+          and ast.unparse(mid[0].test) == "(clash := sorted(taken.intersection(compartments)))"
+          and isinstance(mid[0].body[-1], ast.Raise) and "ValueError" in ast.unparse(mid[0].body[-1])):
+        out["clash_refused"] = True
+    else:
+        raise Unsupported("_default_compartments: statements between the default and `return compartments`")
+    if out["default_fresh"] or out["clash_refused"]:
+        w = ast.unparse(_fn(tree, "write"))
+        if "compartments=_default_compartments(compartments, taken=set(model.ids))" not in w:
+            raise Unsupported("write: _default_compartments(compartments, taken=set(model.ids))")
+    # the compartments are written as given
+    cc = "\n".join(ast.unparse(st) for st in _fn(tree, "_create_sbml_compartments").body)
+    if not (cc.startswith("for compartment_id, compartment in compartments.items():")
+            and "sbml_compartment.setId(compartment_id)" in cc and "sbml_compartment.setSize(compartment.size)" in cc):
+        raise Unsupported("_create_sbml_compartments: shape")
+    return out
+
+
 def _ref_name(tree: ast.Module) -> tuple[bool, str]:
     """`reference = f"{compound_id}ref"` or `reference = _free_reference(f"{compound_id}ref", taken)` with
     `taken = set(model.ids)` before the loop over the reactions"""
@@ -459,6 +545,7 @@ def render(repo: Path) -> str:
     ref_fresh, ref_suffix = _ref_name(tree)
     pre = _prefixes(tree)
     order_m = _export_order(tree)
+    sp = _species_attrs(tree)
 
     def pair(kv):
         return f'("{kv[0]}", {kv[1]})'
@@ -508,6 +595,13 @@ def prefixRxn : String := "{pre['rxn']}"
 def prefixRefId : String := "{pre['refId']}"
 def prefixRefSpecies : String := "{pre['refSpecies']}"
 def exportOrder : List Stage := {_lst(order_m, b)}
+def speciesHosu : Bool := {str(sp['hosu']).lower()}
+def speciesInitAmount : Bool := {str(sp['amount']).lower()}
+def speciesCompartmentLit : Option String := {'none' if sp['lit'] is None else 'some "' + sp['lit'] + '"'}
+def defaultCompartmentId : String := "{sp['default_id']}"
+def defaultCompartmentSize : Nat := {sp['size']}
+def defaultCompartmentFresh : Bool := {str(sp['default_fresh']).lower()}
+def compartmentClashRefused : Bool := {str(sp['clash_refused']).lower()}
 
 end Mxl.C08.Gen
 """
